@@ -2,6 +2,8 @@ package gosym
 
 import (
 	"fmt"
+	"os"
+	"go/token"
 	"go/types"
 	"sort"
 	"strings"
@@ -33,6 +35,23 @@ type node struct {
 	pending bool // other side feasible and not yet explored
 	event   int
 	forced  bool
+	condID  int
+	model   *smt.Model // model of the pending side
+	auxAfter []AuxRec // solver-guided choices made after this decision and before the next one
+}
+
+// AuxRec is one solver-guided concretisation choice (a model value), recorded so
+// that re-executions of the same path prefix make the same choice.
+type AuxRec struct {
+	Site   int64 // instruction count
+	V      uint64
+	GaveUp bool
+}
+
+// Decision is one recorded branch decision (used for forced prefixes).
+type Decision struct {
+	Taken    bool
+	AuxAfter []AuxRec
 }
 
 // Violation is a property violation candidate found on one path.
@@ -71,6 +90,7 @@ type Config struct {
 	Trace       bool
 	NoMerge     bool
 	BudgetIsViolation bool
+	ConcretizeN int
 }
 
 type Result struct {
@@ -94,10 +114,13 @@ type Result struct {
 	Solver      smt.Stats
 	Wall        time.Duration
 	Samples     []PathSample
-	Frontier    [][]bool
+	Frontier    [][]Decision
+	FrontierRoot []AuxRec
 	BudgetHits  int
 	Observes    []string
 	TwinSat     bool
+	FactHits    int
+	OneSided    int
 	Witness     []Violation
 }
 
@@ -148,11 +171,18 @@ type Exec struct {
 	instrs    int64
 	panicking []*goPanic
 	knownConds []knownCond
+	model     *smt.Model
+	pending   []pendingAssert
+	facts     map[int]bool
+	auxRoot   []AuxRec
+	auxQueue  []AuxRec
+	auxOwner  int // index of the stack node owning new aux records, -1 = root
 	lockWatch *watch
 	watched   []*Obj
 	observes  []string
 	inInit    bool
 	lockEvents int
+	curPos    token.Pos
 	harnessDone bool
 
 	res *Result
@@ -161,6 +191,8 @@ type Exec struct {
 	curHarness string
 	initDone  map[*ssa.Package]bool
 }
+
+var traceOn = os.Getenv("VERIF_TRACE") != ""
 
 type knownCond struct {
 	id   string
@@ -211,6 +243,73 @@ func (ex *Exec) assume(c *Term) {
 	if ex.guard != nil {
 		panic(mergeFail{"assume in merged arm"})
 	}
+	ex.flushAsserts()
+	ex.assumeRaw(c)
+}
+
+// learn records literals implied by an asserted condition so that syntactically
+// repeated branch conditions are decided without the solver.
+func (ex *Exec) learn(c *Term, val bool) {
+	if c.IsConst() {
+		return
+	}
+	if _, ok := ex.facts[c.ID]; ok {
+		return
+	}
+	ex.facts[c.ID] = val
+	switch c.Op {
+	case "not":
+		ex.learn(c.Args[0], !val)
+	case "and":
+		if val {
+			ex.learn(c.Args[0], true)
+			ex.learn(c.Args[1], true)
+		}
+	case "or":
+		if !val {
+			ex.learn(c.Args[0], false)
+			ex.learn(c.Args[1], false)
+		}
+	}
+}
+
+// known looks a condition up among the learnt literals.
+func (ex *Exec) knownFact(c *Term) (bool, bool) {
+	if v, ok := ex.facts[c.ID]; ok {
+		return v, true
+	}
+	switch c.Op {
+	case "not":
+		if v, ok := ex.knownFact(c.Args[0]); ok {
+			return !v, true
+		}
+	case "and":
+		a, oka := ex.knownFact(c.Args[0])
+		b, okb := ex.knownFact(c.Args[1])
+		if (oka && !a) || (okb && !b) {
+			return false, true
+		}
+		if oka && okb {
+			return true, true
+		}
+	case "or":
+		a, oka := ex.knownFact(c.Args[0])
+		b, okb := ex.knownFact(c.Args[1])
+		if (oka && a) || (okb && b) {
+			return true, true
+		}
+		if oka && okb {
+			return false, true
+		}
+	}
+	return false, false
+}
+
+func (ex *Exec) assumeRaw(c *Term) {
+	if c.IsTrue() {
+		return
+	}
+	ex.learn(c, true)
 	ex.pc = append(ex.pc, c)
 	if !ex.silent() {
 		ex.sol.Assert(c)
@@ -220,6 +319,19 @@ func (ex *Exec) assume(c *Term) {
 	if c.IsFalse() {
 		panic(pathAbort{kind: "assume"})
 	}
+	if ex.model != nil && !ex.modelSays(c) {
+		ex.model = nil
+	}
+}
+
+// modelSays evaluates c under the cached model; false also when the model is incomplete for c.
+func (ex *Exec) modelSays(c *Term) bool {
+	ex.model.Miss = false
+	v := smt.Eval(c, ex.model, map[int]uint64{})
+	if ex.model.Miss {
+		return false
+	}
+	return v == 1
 }
 
 // branch decides a symbolic condition and returns the side taken on this path.
@@ -233,6 +345,15 @@ func (ex *Exec) branch(cond *Term) bool {
 	if ex.guard != nil {
 		panic(mergeFail{"branch in merged arm"})
 	}
+	if v, ok := ex.knownFact(cond); ok {
+		ex.res.FactHits++
+		return v
+	}
+	ex.flushAsserts()
+	if v, ok := ex.knownFact(cond); ok {
+		ex.res.FactHits++
+		return v
+	}
 	d := ex.depth
 	if d < len(ex.stack) {
 		n := ex.stack[d]
@@ -241,44 +362,108 @@ func (ex *Exec) branch(cond *Term) bool {
 			alt = ex.c.Not(cond)
 		}
 		ex.pc = append(ex.pc, alt)
+		ex.learn(alt, true)
 		if !ex.silent() {
 			ex.sol.Push()
 			ex.sol.Assert(alt)
 			ex.synced = ex.event + 1
 		}
+		if n.condID != 0 && n.condID != cond.ID+1 {
+			panic(fmt.Sprintf("gosym: nondeterministic re-execution at decision %d in %s", d, ex.curHarness))
+		}
+		ex.stack[d].condID = cond.ID + 1
 		ex.stack[d].event = ex.event
 		ex.event++
 		ex.depth++
+		ex.auxQueue = append(ex.auxQueue[:0], n.auxAfter...)
+		ex.auxOwner = d
+		if d == len(ex.stack)-1 && n.model != nil {
+			ex.model = n.model
+			ex.stack[d].model = nil
+		} else if ex.model != nil && !ex.modelSays(alt) {
+			ex.model = nil
+		}
 		return n.taken
 	}
 	if ex.frontierDepth > 0 && d >= ex.frontierDepth {
-		pre := make([]bool, len(ex.stack))
+		pre := make([]Decision, len(ex.stack))
 		for i, n := range ex.stack {
-			pre[i] = n.taken
+			pre[i] = Decision{n.taken, append([]AuxRec(nil), n.auxAfter...)}
 		}
 		ex.res.Frontier = append(ex.res.Frontier, pre)
+		ex.res.FrontierRoot = append([]AuxRec(nil), ex.auxRoot...)
 		panic(pathAbort{kind: "frontier"})
 	}
 	nc := ex.c.Not(cond)
-	rt, _ := ex.sol.Check(cond, false, nil, nil)
-	rf, _ := ex.sol.Check(nc, false, nil, nil)
-	ft, ff := rt != "unsat", rf != "unsat"
+	var ft, ff bool
+	var otherModel *smt.Model
+	if traceOn {
+		t0 := time.Now()
+		q0 := ex.sol.Stats.Queries
+		defer func() {
+			fmt.Fprintf(os.Stderr, "[trace] decision d=%d at %s queries=%d time=%.2fs instrs=%d\n", d, ex.pos(ex.curPos), ex.sol.Stats.Queries-q0, time.Since(t0).Seconds(), ex.instrs)
+		}()
+	}
+	known := false
+	if ex.model != nil {
+		// the cached model of the path condition decides one side for free
+		ex.model.Miss = false
+		v := smt.Eval(cond, ex.model, map[int]uint64{})
+		if !ex.model.Miss {
+			known = true
+			if v == 1 {
+				ft = true
+				r, m := ex.sol.Check(nc, true, ex.syms, ex.selects)
+				ff, otherModel = r != "unsat", m
+			} else {
+				ff = true
+				r, m := ex.sol.Check(cond, true, ex.syms, ex.selects)
+				ft, otherModel = r != "unsat", m
+				if ft {
+					// explore the true side first: swap roles so that the cached model stays with the pending side
+					otherModel, ex.model = ex.model, otherModel
+				}
+			}
+		}
+	}
+	if !known {
+		rt, mt := ex.sol.Check(cond, true, ex.syms, ex.selects)
+		ft = rt != "unsat"
+		if ft {
+			ex.model = mt
+			rf, mf := ex.sol.Check(nc, true, ex.syms, ex.selects)
+			ff, otherModel = rf != "unsat", mf
+		} else {
+			rf, mf := ex.sol.Check(nc, true, ex.syms, ex.selects)
+			ff = rf != "unsat"
+			ex.model = mf
+		}
+	}
 	if !ft && !ff {
 		panic(pathAbort{kind: "infeasible"})
 	}
-	n := node{taken: ft, pending: ft && ff, event: ex.event}
+	n := node{taken: ft, pending: ft && ff, event: ex.event, condID: cond.ID + 1}
+	if n.pending {
+		n.model = otherModel
+	}
 	ex.stack = append(ex.stack, n)
 	alt := cond
 	if !n.taken {
 		alt = nc
 	}
+	ex.auxQueue = ex.auxQueue[:0]
+	ex.auxOwner = len(ex.stack) - 1
 	ex.pc = append(ex.pc, alt)
+	ex.learn(alt, true)
 	ex.sol.Push()
 	ex.sol.Assert(alt)
 	ex.synced = ex.event + 1
 	ex.event++
 	ex.depth++
 	ex.res.Decisions++
+	if !n.pending {
+		ex.res.OneSided++
+	}
 	return n.taken
 }
 
@@ -378,6 +563,13 @@ func (ex *Exec) decisionString() string {
 }
 
 func (ex *Exec) recordViolation(kind, site, msg string, extra *Term) {
+	if len(ex.knownConds) == 0 {
+		for _, v := range ex.res.Violations {
+			if v.Site == site && v.Kind == kind {
+				return // already have a counterexample for this site
+			}
+		}
+	}
 	// extra: additional constraint (negated assertion) or nil (path condition itself)
 	known := ex.c.False()
 	for _, k := range ex.knownConds {
@@ -431,13 +623,46 @@ func (ex *Exec) check(c *Term, site string) {
 	if ex.guard != nil {
 		panic(mergeFail{"assert in merged arm"})
 	}
-	if !ex.silent() {
-		r, _ := ex.sol.Check(ex.c.Not(c), false, nil, nil)
-		if r != "unsat" {
-			ex.recordViolation("assert", site, "assertion can fail", ex.c.Not(c))
+	if ex.silent() && len(ex.pending) == 0 {
+		ex.assumeRaw(c)
+		return
+	}
+	ex.pending = append(ex.pending, pendingAssert{c, site})
+}
+
+type pendingAssert struct {
+	c    *Term
+	site string
+}
+
+// flushAsserts discharges the batched assertions: one query for the conjunction, split only if that fails.
+func (ex *Exec) flushAsserts() {
+	if len(ex.pending) == 0 {
+		return
+	}
+	pend := ex.pending
+	ex.pending = nil
+	conj := ex.c.True()
+	for _, p := range pend {
+		conj = ex.c.And(conj, p.c)
+	}
+	all := "unsat"
+	if !conj.IsTrue() {
+		t0 := time.Now()
+		all, _ = ex.sol.Check(ex.c.Not(conj), false, nil, nil)
+		if traceOn {
+			fmt.Fprintf(os.Stderr, "[trace] assert batch n=%d first=%q result=%s time=%.2fs\n", len(pend), pend[0].site, all, time.Since(t0).Seconds())
 		}
 	}
-	ex.assume(c)
+	for _, p := range pend {
+		if all != "unsat" {
+			r, _ := ex.sol.Check(ex.c.Not(p.c), false, nil, nil)
+			if r != "unsat" {
+				ex.recordViolation("assert", p.site, "assertion can fail", ex.c.Not(p.c))
+			}
+		}
+		ex.assumeRaw(p.c)
+	}
 }
 
 // ---------- exploration ----------
@@ -470,6 +695,9 @@ func (ex *Exec) resetPath() {
 	ex.instrs = 0
 	ex.panicking = nil
 	ex.knownConds = nil
+	ex.pending = nil
+	ex.facts = map[int]bool{}
+	ex.model = nil
 	ex.lockWatch = nil
 	ex.watched = nil
 	ex.observes = nil
@@ -478,6 +706,8 @@ func (ex *Exec) resetPath() {
 	ex.pc = ex.pc[:0]
 	ex.harnessDone = false
 	ex.lockEvents = 0
+	ex.auxQueue = append(ex.auxQueue[:0], ex.auxRoot...)
+	ex.auxOwner = -1
 }
 
 func (ex *Exec) snapshot() {
@@ -495,7 +725,7 @@ func (ex *Exec) snapshot() {
 }
 
 // Explore runs all paths of harness fn that extend the forced decision prefix.
-func (ex *Exec) Explore(fn *ssa.Function, prefix []bool, frontierDepth int) *Result {
+func (ex *Exec) Explore(fn *ssa.Function, prefix []Decision, rootAux []AuxRec, frontierDepth int) *Result {
 	t0 := time.Now()
 	res := &Result{Harness: fn.Name(), PathEnds: map[string]int{}, AssertSites: map[string]int{}, Reach: map[string]int{},
 		KnownHits: map[string]string{}, Funcs: map[string]bool{}, Intrinsics: map[string]bool{}, Assumes: map[string]int{}}
@@ -504,9 +734,10 @@ func (ex *Exec) Explore(fn *ssa.Function, prefix []bool, frontierDepth int) *Res
 	ex.frontierDepth = frontierDepth
 	ex.stack = ex.stack[:0]
 	for _, b := range prefix {
-		ex.stack = append(ex.stack, node{taken: b, forced: true})
+		ex.stack = append(ex.stack, node{taken: b.Taken, forced: true, auxAfter: append([]AuxRec(nil), b.AuxAfter...)})
 	}
 	ex.minDepth = len(prefix)
+	ex.auxRoot = append([]AuxRec(nil), rootAux...)
 	ex.synced = 0
 	ex.sol.PopTo(0)
 	for {
@@ -529,6 +760,7 @@ func (ex *Exec) Explore(fn *ssa.Function, prefix []bool, frontierDepth int) *Res
 			if top.pending {
 				top.pending = false
 				top.taken = !top.taken
+				top.auxAfter = nil
 				break
 			}
 			ex.stack = ex.stack[:len(ex.stack)-1]
@@ -553,11 +785,20 @@ func (ex *Exec) runPath(fn *ssa.Function) (end string) {
 		if r == nil {
 			return
 		}
+		if pa, ok := r.(pathAbort); !(ok && (pa.kind == "infeasible" || pa.kind == "assume" || pa.kind == "frontier")) {
+			func() {
+				defer func() { recover() }()
+				ex.flushAsserts()
+			}()
+		}
 		switch e := r.(type) {
 		case pathAbort:
 			switch e.kind {
 			case "violation":
 				ex.recordViolation("memory", e.msg, e.msg, nil)
+				end = "violation:" + e.msg
+			case "monitor":
+				ex.recordViolation("monitor", e.msg, e.msg, nil)
 				end = "violation:" + e.msg
 			case "budget":
 				ex.res.BudgetHits++
@@ -584,6 +825,7 @@ func (ex *Exec) runPath(fn *ssa.Function) (end string) {
 		}
 	}()
 	ex.call(Func{fn: fn}, nil)
+	ex.flushAsserts()
 	if len(ex.res.Witness) < 3 {
 		// vacuity witness: the end of the harness is reachable; its model is later replayed natively
 		r, m := ex.sol.Check(nil, true, ex.syms, ex.selects)
@@ -612,4 +854,22 @@ func sortedKeysBool(m map[string]bool) []string {
 	}
 	sort.Strings(ks)
 	return ks
+}
+
+// auxChoice returns the recorded choice for the current position, if re-executing.
+func (ex *Exec) auxChoice() (AuxRec, bool) {
+	if len(ex.auxQueue) > 0 && ex.auxQueue[0].Site == ex.instrs {
+		r := ex.auxQueue[0]
+		ex.auxQueue = ex.auxQueue[1:]
+		return r, true
+	}
+	return AuxRec{}, false
+}
+
+func (ex *Exec) auxRecord(r AuxRec) {
+	if ex.auxOwner < 0 {
+		ex.auxRoot = append(ex.auxRoot, r)
+	} else {
+		ex.stack[ex.auxOwner].auxAfter = append(ex.stack[ex.auxOwner].auxAfter, r)
+	}
 }
